@@ -420,13 +420,51 @@ fn opnd_from_json(v: &Value) -> Opnd {
     }
 }
 
+fn stat(s: &str, table: &[&'static str]) -> &'static str {
+    for x in table {
+        if *x == s {
+            return x;
+        }
+    }
+    panic!("harness: unknown mnemonic {}", s)
+}
+
 pub fn ins_from_json(v: &Value) -> Ins {
+    let w = v.get("w").and_then(|x| x.as_u64()).unwrap_or(16) as u8;
+    let op = v.get("op").and_then(|x| x.as_str()).unwrap_or("");
     match v["cls"].as_str().unwrap() {
         "push" => Ins::Push { src: opnd_from_json(&v["src"]) },
         "pop" => Ins::Pop { dst: opnd_from_json(&v["dst"]) },
-        "flagsx" => Ins::FlagsX { op: match v["op"].as_str().unwrap() { "pushf" => "pushf", "popf" => "popf", "lahf" => "lahf", _ => "sahf" } },
-        "xchg" => Ins::Xchg { w: v["w"].as_u64().unwrap() as u8, a: opnd_from_json(&v["a"]), b: opnd_from_json(&v["b"]) },
-        "mov" => Ins::Mov { w: v["w"].as_u64().unwrap() as u8, dst: opnd_from_json(&v["dst"]), src: opnd_from_json(&v["src"]) },
+        "flagsx" => Ins::FlagsX { op: stat(op, &["pushf", "popf", "lahf", "sahf"]) },
+        "xchg" => Ins::Xchg { w, a: opnd_from_json(&v["a"]), b: opnd_from_json(&v["b"]) },
+        "mov" => Ins::Mov { w, dst: opnd_from_json(&v["dst"]), src: opnd_from_json(&v["src"]) },
+        "ctl" => Ins::Ctl { op: stat(op, &["stc", "clc", "cmc", "std", "cld", "sti", "cli", "nop", "hlt"]) },
+        "unarith" => Ins::UnArith { op: stat(op, &["inc", "dec", "neg", "mul", "imul", "div", "idiv"]), w, dst: opnd_from_json(&v["dst"]) },
+        "binarith" => Ins::BinArith { op: stat(op, &["add", "adc", "sub", "sbb", "cmp"]), w, dst: opnd_from_json(&v["dst"]), src: opnd_from_json(&v["src"]) },
+        "jcc" => {
+            let mn = v["mn"].as_str().unwrap();
+            let all: Vec<&'static str> = crate::checks::JCC_SPELLINGS.iter().chain(crate::checks::CX_SPELLINGS.iter()).cloned().collect();
+            Ins::Jcc { mn: stat(mn, &all), label: v["label"].as_str().unwrap().to_string(), target: 0 }
+        }
+        "call" => Ins::Call { name: v["proc"].as_str().unwrap().to_string(), target: 0 },
+        "ret" => Ins::Ret,
+        "int" => Ins::Int { n: v["n"].as_u64().unwrap() as u32 },
+        "print" => {
+            let wt = &v["what"];
+            let g = |k: &str| wt[k].as_u64().unwrap() as u32;
+            Ins::Print { what: match wt["k"].as_str().unwrap() {
+                "flags" => PrintWhat::Flags,
+                "reg" => PrintWhat::Reg,
+                "range" => PrintWhat::Range(g("a"), g("b")),
+                "span" => PrintWhat::Span(g("a"), g("n")),
+                _ => PrintWhat::DsSpan(g("n")),
+            } }
+        }
+        "string" => {
+            let rep = v["rep"].as_str().unwrap();
+            let (r, rm): (&'static str, &'static str) = match rep { "" => ("", ""), "rep" => ("rep", "rep"), "repz" => ("repz", "repe"), _ => ("repnz", "repne") };
+            Ins::Str { op: stat(op, &["movs", "lods", "stos", "cmps", "scas"]), w, rep: r, repmn: rm }
+        }
         c => panic!("harness: replay of class {} not supported", c),
     }
 }
